@@ -4,7 +4,7 @@ from __future__ import annotations
 
 from functools import partial
 
-from . import e1, e1b, e2, e2b, e2c, e3, e4, e5, e6, e7, e7b, e8, e9, e10, e11
+from . import e1, e1b, e2, e2b, e2c, e3, e4, e5, e6, e7, e7b, e8, e9, e10, e11, e12
 
 TB_E1 = [
     "the rewriting normaliser of sv/algebra.py (confluence re-checked on all critical triples on every run)",
@@ -109,6 +109,32 @@ prop(
         "conjugated kernels; the Green's function projects, zeroes pivots and re-projects; Q's matvec, adjoint action, "
         "adjoint, conjugate and transpose denote those of the dense matrix; the base-class state the installed SciPy "
         "reads is initialised."),
+)
+
+prop(
+    "C07", level="other", selftest=["block_diagonalization", "second_quantization", "number_ordered_form", "algorithms"],
+    rules=[main_e1, wf_main, e12.rule_operator_mode, e7.rule_solve_scalar, e1b.rule_projection_pairs, e1b.rule_scope_flags,
+           e10.rule_operator_order, e10.rule_fermion_crossing, e10.rule_shift_table, e10.rule_linear_structure,
+           e2c.rule_product_by_order, e2c.rule_cauchy_wiring, e2c.rule_adjoint_fill, tv_shipped, e9.rule_runtime_support,
+           e11.rule_helpers, e4.rule_loop_carried_state],
+    explanation=(
+        "Narrow claim: ONE clause of C07 is decided, the last one -- `the operator results also satisfy U†U = 1 and "
+        "U†HU = H_tilde within the operator algebra`. E1's certificate of `main` is an identity of the free *-algebra, so it "
+        "holds in the operator algebra once the code supplies that algebra faithfully; the rules decide the structural "
+        "conditions of that: every Hamiltonian term enters by an entry-wise change of representation "
+        "(NumberOrderedForm.from_expr; zero stays absent, other types are rejected) and the results leave through an "
+        "entry-wise simplification of NumberOrderedForm entries only, in the order (H_tilde, U, U†) [E12]; operator problems "
+        "get the operator Sylvester solver built from the energies of the same converted H [E12], whose scalar solver "
+        "divides each term by the commuted energy difference with mirror-image shifts and completes diagonal entries "
+        "anti-Hermitian [E7.solve_scalar]; the selection closures apply one operator mask with opposite keep flags, and "
+        "filter_terms(c, True) + filter_terms(c, False) is the whole form [E1.projection, E11]; the product, adjoint and "
+        "sum of NumberOrderedForm have the structure of an associative *-algebra as far as E10 decides it (operator order, "
+        "fermionic crossing sets, shift table, linear structure). NOT decided, and not claimed: the comparison of matrix "
+        "elements between Fock states with a block diagonalization of truncated matrices (the first sentence of C07), "
+        "NumberOrderedForm.from_expr on arbitrary expression trees, `_poly_simplify` and sympy simplification being value-"
+        "preserving."),
+    assumptions=["NumberOrderedForm.from_expr, _poly_simplify and sympy's simplify/doit are value-preserving changes of representation",
+                 "the Fock-state / truncated-matrix clause of C07 is outside this check"],
 )
 
 prop(
@@ -267,9 +293,6 @@ prop(
 )
 
 NOT_APPLICABLE = {
-    "C07": "relates matrix elements between Fock states of two executions (operator-valued vs truncated matrices) at "
-           "runtime sympy values; no clause has a static form that is not already claimed elsewhere (operator algebra: "
-           "C08, operator Sylvester identity: C16, mask complementarity: C01, eval totality: C20)",
     "C15": "every clause relates the outputs of two runs on transformed inputs (relabelling, rotation, conjugation, "
            "shift, scaling, direct sum); the position-dependent constructs it worries about are decided as parts of "
            "C01/C02 (mode analysis of commuting_blocks[index[0]], adjoint fills), but no clause of C15 itself is visible "
